@@ -80,6 +80,14 @@ func parsePipeExpr(expr string) pipeExpr {
 	// Check if this is a complex expression (contains operators like ||, &&, etc.)
 	// before trying to split on pipe character
 	trimmed := strings.TrimSpace(expr)
+	if parts := splitDotPipe(expr); parts != nil {
+		// "price | . > 100 ? 'a' : 'b'": a later segment speaks of the piped value as "."
+		result := pipeExpr{initial: strings.TrimSpace(parts[0])}
+		for _, part := range parts[1:] {
+			result.segments = append(result.segments, classifySegment(strings.TrimSpace(part)))
+		}
+		return result
+	}
 	if helpers.IsComplexExpr(trimmed) {
 		return pipeExpr{
 			initial: "",
@@ -131,6 +139,75 @@ func parsePipeExpr(expr string) pipeExpr {
 	}
 
 	return result
+}
+
+// pipeValueName is the name the piped value has inside an expression segment (where the template
+// writes a lone dot).
+const pipeValueName = "__piped__"
+
+// splitDotPipe splits an expression with operators at its pipe characters - outside string
+// literals and parentheses, not the halves of || - when a segment after the first one uses the
+// piped value ("."). It returns nil for every other expression.
+func splitDotPipe(expr string) []string {
+	masked := helpers.MaskQuoted(expr)
+	if !strings.Contains(masked, "|") || !strings.Contains(masked, ".") || !helpers.IsComplexExpr(expr) {
+		return nil
+	}
+	var parts []string
+	depth, start := 0, 0
+	for i := 0; i < len(masked); i++ {
+		switch masked[i] {
+		case '(', '[', '{':
+			depth++
+		case ')', ']', '}':
+			depth--
+		case '|':
+			if depth != 0 {
+				continue
+			}
+			if i+1 < len(masked) && masked[i+1] == '|' {
+				i++
+				continue
+			}
+			parts = append(parts, expr[start:i])
+			start = i + 1
+		}
+	}
+	parts = append(parts, expr[start:])
+	if len(parts) < 2 {
+		return nil
+	}
+	for _, part := range parts[1:] {
+		if nameThePipedValue(part) != part {
+			return parts
+		}
+	}
+	return nil
+}
+
+// nameThePipedValue replaces every lone dot of an expression segment (". > 100", "(. + 1) * 2",
+// ".name") by pipeValueName. Dots of numbers, paths and method calls stay.
+func nameThePipedValue(seg string) string {
+	masked := helpers.MaskQuoted(seg)
+	var b strings.Builder
+	for i := 0; i < len(seg); i++ {
+		if masked[i] != '.' {
+			b.WriteByte(seg[i])
+			continue
+		}
+		prevOK := i == 0 || strings.IndexByte(" (,!<>=+-*/%?:&|[", masked[i-1]) >= 0
+		nextDigit := i+1 < len(masked) && masked[i+1] >= '0' && masked[i+1] <= '9'
+		nextDot := i+1 < len(masked) && masked[i+1] == '.'
+		if !prevOK || nextDigit || nextDot {
+			b.WriteByte('.')
+			continue
+		}
+		b.WriteString(pipeValueName)
+		if i+1 < len(masked) && helpers.IsIdentifierChar(rune(masked[i+1]), true) {
+			b.WriteByte('.') // .name is a field of the piped value
+		}
+	}
+	return b.String()
 }
 
 // classifySegment determines if a pipe segment is a filter call or expression
@@ -354,10 +431,8 @@ func (v *Vue) evalSegment(ctx VueContext, seg pipeSegment, input any, isFirst, f
 	case segmentExpr:
 		// Use expr library with . representing the input value
 		env := v.exprEnv(ctx, seg.expr)
-		if input != nil {
-			env["."] = input
-		}
-		result, err := v.exprEval.Eval(seg.expr, env)
+		env[pipeValueName] = input
+		result, err := v.exprEval.Eval(nameThePipedValue(seg.expr), env)
 		if err != nil {
 			return nil, fmt.Errorf("in expression '%s': %w", seg.expr, err)
 		}
